@@ -477,7 +477,7 @@ func propC19(w *World, r *Report) {
 			}
 			return ci.Stores[fi].String()
 		}
-		r.Check(get(ri.fCUR) == "0" && (get(ri.fFULL) == "false" || get(ri.fFULL) == "<zero>") && (get(ri.fOLD) == "<zero>" || get(ri.fOLD) == "0"), "Q1", "constructor: position 0, not wrapped, mark 0", w.Pos(ri.Ctor.Pos()),
+		r.Check((get(ri.fCUR) == "0" || get(ri.fCUR) == "<zero>") && (get(ri.fFULL) == "false" || get(ri.fFULL) == "<zero>") && (get(ri.fOLD) == "<zero>" || get(ri.fOLD) == "0"), "Q1", "constructor: position 0, not wrapped, mark 0", w.Pos(ri.Ctor.Pos()),
 			fmt.Sprintf("position=%s wrapped=%s mark=%s", get(ri.fCUR), get(ri.fFULL), get(ri.fOLD)))
 		r.Check(ri.capTerm == "param:int", "Q2", "constructor: the capacity is the size argument itself (exactly the requested number of slots)", w.Pos(ri.Ctor.Pos()), ri.capTerm)
 		r.Check(get(ri.fORD) == "makeslice(param:int)" && strings.Contains(get(ri.fFR), "makeslice(param:int)") || get(ri.fORD) == "makeslice(param:int)", "Q2", "constructor: both slices have n elements", w.Pos(ri.Ctor.Pos()), get(ri.fFR)+" ; "+get(ri.fORD))
